@@ -211,7 +211,7 @@ func limitTests(fn *ssa.Function, fields map[string]bool) []limitTest {
 			if _, isC := ConstInt(f.Y); isC {
 				continue
 			}
-			lt := limitTest{If: iff, Field: fx.Name(), Counter: f.Y}
+			lt := limitTest{If: iff, Field: fx.Name(), Counter: throughGetter(f.Y)}
 			lt.Exact = f.Op == token.LEQ // field <= counter  == counter >= field
 			lt.ReachedSucc = b.Succs[0]
 			out = append(out, lt)
@@ -219,7 +219,7 @@ func limitTests(fn *ssa.Function, fields map[string]bool) []limitTest {
 			if _, isC := ConstInt(f.X); isC {
 				continue
 			}
-			lt := limitTest{If: iff, Field: fy.Name(), Counter: f.X}
+			lt := limitTest{If: iff, Field: fy.Name(), Counter: throughGetter(f.X)}
 			lt.Exact = f.Op == token.LSS // counter < field
 			lt.ReachedSucc = b.Succs[1]
 			out = append(out, lt)
@@ -1509,4 +1509,31 @@ func c08SeekableSources(c *Ctx) {
 		})
 	}
 	c.Floor("O8.8", "registered data sources with an OpenSource body", nSrc, 3)
+}
+
+// throughGetter: the value a trivial helper of the package hands back unchanged (sent.total() -> sent): a call whose
+// callee returns, on its only return, one of its parameters (possibly converted) stands for the argument passed.
+func throughGetter(v ssa.Value) ssa.Value {
+	cl, ok := Strip(v).(*ssa.Call)
+	if !ok || cl.Parent() == nil {
+		return v
+	}
+	sc := cl.Call.StaticCallee()
+	if sc == nil || len(sc.Blocks) != 1 || PkgOf(sc) != PkgOf(cl.Parent()) {
+		return v
+	}
+	r, isR := sc.Blocks[0].Instrs[len(sc.Blocks[0].Instrs)-1].(*ssa.Return)
+	if !isR || len(r.Results) != 1 {
+		return v
+	}
+	pr, isP := Strip(r.Results[0]).(*ssa.Parameter)
+	if !isP {
+		return v
+	}
+	for i, q := range sc.Params {
+		if q == pr && i < len(cl.Call.Args) {
+			return cl.Call.Args[i]
+		}
+	}
+	return v
 }
